@@ -4,7 +4,6 @@ import (
 	"fmt"
 	"strconv"
 
-	"github.com/remieven/ysgo/internal/container"
 	"github.com/remieven/ysgo/internal/tree"
 	"github.com/remieven/ysgo/variable"
 )
@@ -83,11 +82,7 @@ func vLineStatement(tag string, n int, st *variable.InMemoryStorer) (*tree.LineS
 }
 
 func vRunnerOver(st *variable.InMemoryStorer, stmts ...*tree.Statement) *DialogueRunner {
-	stack := container.Stack[*statementQueue]{}
-	stack.Push(&statementQueue{statements: stmts})
-	return &DialogueRunner{dialogue: &tree.Dialogue{}, statementsToRun: stack, variableStorer: st,
-		functionStorer: &functionStorer{functionsByID: map[string]YarnSpinnerFunction{}}, commandStorer: newCommandStorer(),
-		visitedNodes: map[string]int{}, currentNode: "n"}
+	return vRunnerAt(st, &tree.Dialogue{}, "n", stmts...)
 }
 
 func vTagsEq(a, b []string) bool {
